@@ -138,6 +138,13 @@ func TestC03Retransmission(t *testing.T) {
 					}
 					subs = append(subs, c)
 				}
+				// a bystander with other QoS levels on the same filters (recipients of one message with mixed QoS);
+				// it subscribes after the scripted sessions and acknowledges everything promptly
+				mix := w.NewClient("mix", 1, AckAll)
+				mix.Connect(ConnectOpts{ClientID: "mix", KeepAlive: 600})
+				w.Step()
+				mix.Subscribe(1, 0, "q1/#")
+				mix.Subscribe(2, 1, "q2/#")
 				pub := w.NewClient("pub", 1, AckAll)
 				pub.Connect(ConnectOpts{ClientID: "pub", KeepAlive: 600})
 				w.Step()
